@@ -411,3 +411,136 @@ pub fn cmd_fwdrec(args: &Args) -> i32 {
     println!("{}", json!({"programs": n, "executes": execs, "firings": firings, "errors": errs}));
     0
 }
+
+// ------------------------------------------------------------------------------------------------
+// L2: programs enumerated by TLC (ForwardGen.tla) are built from their spec JSON and run step by step.
+
+fn value_from_spec(v: &Value) -> RV {
+    let i = v["i"].as_i64().unwrap_or(0);
+    match v["t"].as_str().unwrap() {
+        "int" => RV::Integer(i),
+        "num" => qnum(i),
+        "str" => RV::String(v["s"].as_array().unwrap().iter().map(|c| char::from_u32(c.as_u64().unwrap() as u32).unwrap()).collect()),
+        "bool" => RV::Boolean(i != 0),
+        "arr" => RV::Array(v["a"].as_array().unwrap().iter().map(value_from_spec).collect()),
+        _ => RV::Null,
+    }
+}
+fn render_flat(f: &Value) -> String {
+    let xs = f["xs"].as_array().unwrap();
+    let ops = f["ops"].as_array().unwrap();
+    let mut s = String::new();
+    for (k, x) in xs.iter().enumerate() {
+        if k > 0 {
+            s.push_str(&format!(" {} ", ops[k - 1].as_str().unwrap()));
+        }
+        match x[0].as_str().unwrap() {
+            "p" => s.push_str(x[1].as_str().unwrap()),
+            _ => s.push_str(&render_lit(&value_from_spec(&x[1]))),
+        }
+    }
+    s
+}
+fn op_from(s: &str) -> Operator {
+    OPS.iter().find(|(n, _)| *n == s).map(|(_, o)| o.clone()).unwrap()
+}
+pub fn cond_from_spec(c: &Value) -> ConditionGroup {
+    match c[0].as_str().unwrap() {
+        "cmp" => {
+            let rhs = if c[3][0] == "lit" { value_from_spec(&c[3][1]) } else { RV::Expression(render_flat(&c[3][1])) };
+            ConditionGroup::single(Condition::new(c[1].as_str().unwrap().to_string(), op_from(c[2].as_str().unwrap()), rhs))
+        }
+        "test" => ConditionGroup::single(Condition::with_test(
+            format!("{} {} {}", render_flat(&c[1]), c[2].as_str().unwrap(), render_lit(&value_from_spec(&c[3]))), vec![])),
+        "and" => ConditionGroup::and(cond_from_spec(&c[1]), cond_from_spec(&c[2])),
+        "or" => ConditionGroup::or(cond_from_spec(&c[1]), cond_from_spec(&c[2])),
+        _ => ConditionGroup::not(cond_from_spec(&c[1])),
+    }
+}
+pub fn rule_from_spec(r: &Value) -> Rule {
+    let name = r["name"].as_str().unwrap().to_string();
+    let mut acts = vec![];
+    for a in r["acts"].as_array().unwrap() {
+        if a[0] == "focus" {
+            acts.push(ActionType::ActivateAgendaGroup { group: a[1].as_str().unwrap().to_string() });
+        } else {
+            let v = if a[2][0] == "lit" { value_from_spec(&a[2][1]) } else { RV::Expression(render_flat(&a[2][1])) };
+            acts.push(ActionType::Set { field: a[1].as_str().unwrap().to_string(), value: v });
+        }
+    }
+    acts.push(ActionType::Append { field: "Trace.log".to_string(), value: RV::String(name.clone()) });
+    let mut rule = Rule::new(name, cond_from_spec(&r["cond"]), acts)
+        .with_salience(r["sal"].as_i64().unwrap() as i32)
+        .with_no_loop(r["noLoop"].as_bool().unwrap())
+        .with_lock_on_active(r["lock"].as_bool().unwrap());
+    let ag = r["ag"].as_str().unwrap();
+    if ag != "MAIN" { rule = rule.with_agenda_group(ag.to_string()); }
+    let grp = r["grp"].as_str().unwrap();
+    if !grp.is_empty() { rule = rule.with_activation_group(grp.to_string()); }
+    let (eff, exp) = (r["eff"].as_i64().unwrap(), r["exp"].as_i64().unwrap());
+    if eff >= 0 { rule = rule.with_date_effective(ts(eff)); }
+    if exp >= 0 { rule = rule.with_date_expires(ts(exp)); }
+    rule.enabled = r["enabled"].as_bool().unwrap();
+    rule
+}
+
+pub struct FW {
+    engine: RustRuleEngine,
+    facts: Facts,
+    paths: Vec<String>,
+}
+impl FW {
+    pub fn new(cfg: &Value) -> FW {
+        let maxc = cfg["maxc"].as_u64().unwrap_or(3) as usize;
+        let engine = RustRuleEngine::with_config(KnowledgeBase::new("g"), EngineConfig { max_cycles: maxc, timeout: None, enable_stats: false, debug_mode: false });
+        let paths = match cfg["paths"].as_array() {
+            Some(a) => a.iter().map(|p| p.as_str().unwrap().to_string()).collect(),
+            None => vec!["k".to_string(), "A.x".to_string()],
+        };
+        let facts = Facts::new();
+        facts.set("A", RV::Object(HashMap::new()));
+        FW { engine, facts, paths }
+    }
+}
+impl crate::core::Model for FW {
+    fn apply(&mut self, l: &Value) -> Value {
+        match l["op"].as_str().unwrap() {
+            "addrule" => {
+                let _ = self.engine.knowledge_base().add_rule(rule_from_spec(&l["rule"]));
+                json!({"ok": true})
+            }
+            "setfact" => {
+                let p = l["p"].as_str().unwrap();
+                let v = value_from_spec(&l["v"]);
+                if self.facts.set_nested(p, v.clone()).is_err() {
+                    self.facts.set(p, v);
+                }
+                json!({"ok": true})
+            }
+            "focus" => { self.engine.set_agenda_focus(l["g"].as_str().unwrap()); json!({"ok": true}) }
+            "pop" => { self.engine.pop_agenda_focus(); json!({"ok": true}) }
+            "clear" => { self.engine.clear_agenda_focus(); json!({"ok": true}) }
+            "resetnl" => { self.engine.reset_no_loop_tracking(); json!({"ok": true}) }
+            "exec" => {
+                self.facts.remove("Trace.log");
+                let t = l["ts"].as_i64().unwrap();
+                let res = self.engine.execute_at_time(&self.facts, ts(t));
+                let log: Vec<Value> = match self.facts.get("Trace.log") {
+                    Some(RV::Array(a)) => a.iter().map(|v| json!(v.to_string())).collect(),
+                    _ => vec![],
+                };
+                let mut fj = serde_json::Map::new();
+                for p in &self.paths {
+                    fj.insert(p.clone(), read_path(&self.facts, p));
+                }
+                match res {
+                    Ok(r) => json!({"ret": "ok", "log": log, "cycles": r.cycle_count, "evaluated": r.rules_evaluated, "fired": r.rules_fired,
+                                    "group": self.engine.get_active_agenda_group(), "facts": fj}),
+                    Err(_) => json!({"ret": "err", "log": log, "cycles": 0, "evaluated": 0, "fired": 0,
+                                     "group": self.engine.get_active_agenda_group(), "facts": fj}),
+                }
+            }
+            o => panic!("unknown op {}", o),
+        }
+    }
+}
